@@ -12,11 +12,13 @@ HEADER = """From Bingo Require Import Model.Explicit.
 From Coq Require Import ZArith QArith List Bool.
 Import ListNotations.
 Definition encq (v : Q) : list Z := let r := Qred v in [Qnum r; Zpos (Qden r)].
-Definition runner (c : bool * list Z * list Z * list (list Z)) : list Z :=
-  let '(rel, fx, y, dfdc) := c in
+(* lc: None = use_linear_correction off or linregress raised; Some (slope, intercept) in quarters *)
+Definition runner (c : bool * list Z * list Z * list (list Z) * option (Z * Z)) : list Z :=
+  let '(rel, fx, y, dfdc, lc4) := c in
+  let lc := match lc4 with None => None | Some (b, a) => Some (b # 4, a # 4) end in
   let fq := map inject_Z fx in let yq := map inject_Z y in
-  let '(s1, fv) := evaluate_fitness_vector (mkER 5) rel fq yq in
-  let '(s2, (fv2, jac)) := get_fitness_vector_and_jacobian s1 rel fq (map (map inject_Z) dfdc) yq in
+  let '(s1, fv) := evaluate_fitness_vector_lc (mkER 5) lc rel fq yq in
+  let '(s2, (fv2, jac)) := get_fitness_vector_and_jacobian_lc s1 lc rel fq (map (map inject_Z) dfdc) yq in
   Z.of_nat (eval_count s2) :: flat_map encq fv ++ [(-7777)%Z] ++ flat_map encq fv2 ++ [(-7777)%Z] ++ flat_map (flat_map encq) jac."""
 RUNNER = "runner"
 
@@ -29,12 +31,18 @@ def gen_case(rng):
     y = [rng.choice(pw) for _ in range(m)] if rel else [rng.randint(-9, 9) for _ in range(m)]
     fx = [rng.randint(-20, 20) for _ in range(m)]
     dfdc = [[rng.randint(-6, 6) for _ in range(L)] for _ in range(m)]
-    return dict(rel=rel, fx=fx, y=y, dfdc=dfdc, L=L)
+    # use_linear_correction: off / on with the slope and intercept scipy's linregress "returns" chosen here (an oracle in the
+    # model; quarters, so that everything stays exact) / on with linregress raising ValueError (the code carries on uncorrected)
+    k = rng.random()
+    lc = None if k < 0.5 else ("raise" if k < 0.58 else [rng.choice([4, -4, 8, 2, 1, -2, 0, 16, 3]), rng.choice([0, 4, -4, 2, -6, 1, 12])])
+    return dict(rel=rel, fx=fx, y=y, dfdc=dfdc, L=L, lc=lc)
 
 
 def coq_case(c):
-    return "(%s, %s, %s, %s)" % (vlib.cbool(c["rel"]), vlib.clist(c["fx"]), vlib.clist(c["y"]),
-                                 vlib.clist(c["dfdc"], vlib.clist))
+    lc = c.get("lc")
+    return "(%s, %s, %s, %s, %s)" % (vlib.cbool(c["rel"]), vlib.clist(c["fx"]), vlib.clist(c["y"]),
+                                     vlib.clist(c["dfdc"], vlib.clist),
+                                     "None" if lc in (None, "raise") else "(Some (%s, %s))" % (vlib.cz(lc[0]), vlib.cz(lc[1])))
 
 
 def impl_main(payload):
@@ -59,13 +67,22 @@ def impl_main(payload):
         f = Fraction(float(v))
         return [f.numerator, f.denominator]
 
+    import bingo.symbolic_regression.explicit_regression as er_mod
+    real_linregress = er_mod.linregress
     results = []
     for c in payload["cases"]:
         m = len(c["fx"])
         x = np.zeros((m, 1))
         y = np.array(c["y"], dtype=float).reshape(m, 1)
-        fit = ExplicitRegression(ExplicitTrainingData(x, y), metric="mse", relative=c["rel"])
+        lc = c.get("lc")
+        fit = ExplicitRegression(ExplicitTrainingData(x, y), metric="mse", relative=c["rel"], use_linear_correction=lc is not None)
         fit.eval_count = 5
+
+        def fake_linregress(a, b, _lc=lc):
+            if _lc == "raise":
+                raise ValueError("all x values are identical")
+            return _lc[0] / 4.0, _lc[1] / 4.0, 0.0, 0.0, 0.0
+        er_mod.linregress = fake_linregress
         ind = Stub(np.array(c["fx"], dtype=float).reshape(m, 1), np.array(c["dfdc"], dtype=float).reshape(m, c["L"]))
         fv = np.atleast_1d(fit.evaluate_fitness_vector(ind))
         fv2, jac = fit.get_fitness_vector_and_jacobian(ind)
@@ -81,6 +98,7 @@ def impl_main(payload):
             for v in row:
                 out += encq(v)
         results.append(dict(out=out, viol=[]))
+    er_mod.linregress = real_linregress
 
     # ---------------- oracle on real equations
     orc = dict(checks=0, viol=[], samples=[])
@@ -228,7 +246,9 @@ def check(rep, proof):
         distinct_nontrivial=len({repr(c) for c in cases if len(c["fx"]) >= 2}),
         rule="ExplicitRegression.evaluate_fitness_vector / get_fitness_vector_and_jacobian on integer data through a stub "
              "individual (relative mode with power-of-two y so that the float quotients are exact), compared as exact fractions "
-             "with Model/Explicit.v incl. the evaluation counter; oracle: 6 real AGraph equations x 4 metrics x absolute/relative, "
+             "with Model/Explicit.v incl. the evaluation counter; half of the cases switch use_linear_correction on, with scipy's "
+             "linregress replaced by a stand-in returning a chosen slope / intercept (quarters) or raising ValueError - the model "
+             "takes them as an oracle; oracle: 6 real AGraph equations x 4 metrics x absolute/relative, "
              "fitness against an independent formula and gradient against central finite differences, before and after the "
              "training data is replaced by a same-sized set",
         samples=[cases[0]] + orc["samples"],
